@@ -27,10 +27,10 @@ MANIFEST = {
 
 THEOREMS = {
     "C04": ["Codec.C04_reserved_eq_written", "Codec.C04_reserved_eq_written_list", "Codec.C04_index_alignment",
-            "Codec.C04_optional_alignment", "Codec.C04_fast_path_alignment", "Codec.C04_growth_keeps_entries",
+            "Codec.C04_window_exact", "Codec.C04_optional_alignment", "Codec.C04_fast_path_alignment", "Codec.C04_growth_keeps_entries",
             "Codec.C04_decode_encode", "Codec.C04_bytes_determine_view", "Codec.C04_framing",
             "Codec.C04_sanitize_spec", "Codec.C04_sanitize_id", "Codec.C04_sanitize_length", "Codec.C04_text_partial",
-            "Codec.sizePass_spec", "Codec.encode_spec", "Codec.decode_spec",
+            "Codec.sizePass_spec", "Codec.encode_spec", "Codec.encode_short", "Codec.decode_spec",
             "Obligations.codec_extraction_complete", "Obligations.codec_cache_elem", "Obligations.codec_kinds_ok",
             "Obligations.codec_kind_names", "Obligations.codec_fast_traits", "Obligations.codec_framing_consistent",
             "Obligations.codec_clear_rule", "Obligations.codec_escape_format", "Obligations.codec_events",
